@@ -274,9 +274,24 @@ type c30PCOpt struct {
 	Sem  SDPSemantics
 	Icpt int // 0 none, 1 simulcast header extensions only, 2 default interceptors
 	SE   func(*SettingEngine)
+	Prof *c30Profile // nil: the default application (default MediaEngine, default Configuration)
 }
 
 func c30NewPC(o c30PCOpt) *PeerConnection {
+	if o.Prof != nil {
+		// a generated application profile: its own MediaEngine, Configuration policies and SettingEngine switches;
+		// Icpt==1 (simulcast header extensions) is part of the profile's header-extension choice
+		return rigMustPC(rigOpts{
+			ME: o.Prof.mediaEngine(), Interceptors: o.Icpt == 2,
+			Cfg: Configuration{SDPSemantics: o.Sem, BundlePolicy: o.Prof.bundle, RTCPMuxPolicy: o.Prof.rtcpMux},
+			SE: func(se *SettingEngine) {
+				o.Prof.settingEngine(se)
+				if o.SE != nil {
+					o.SE(se)
+				}
+			},
+		})
+	}
 	me := &MediaEngine{}
 	if err := me.RegisterDefaultCodecs(); err != nil {
 		panic(err)
@@ -292,11 +307,14 @@ func c30NewPC(o c30PCOpt) *PeerConnection {
 
 var c30TrackSeq atomic.Int64 //nolint:gochecknoglobals
 
-func c30Track(kind RTPCodecType, rid string) *TrackLocalStaticRTP {
+func c30Track(kind RTPCodecType, rid string, prof *c30Profile) *TrackLocalStaticRTP {
 	n := c30TrackSeq.Add(1)
 	capb := RTPCodecCapability{MimeType: MimeTypeVP8, ClockRate: 90000}
 	if kind == RTPCodecTypeAudio {
 		capb = RTPCodecCapability{MimeType: MimeTypeOpus, ClockRate: 48000, Channels: 2}
+	}
+	if pc, ok := prof.trackCap(kind); ok {
+		capb = pc // a profiled application sends what it registered (else: a codec its MediaEngine does not know)
 	}
 	var opts []func(*TrackLocalStaticRTP)
 	id := fmt.Sprintf("%s-%d", kind, n)
@@ -315,6 +333,7 @@ func c30Track(kind RTPCodecType, rid string) *TrackLocalStaticRTP {
 // c30Peer is a PeerConnection with its local tracks and the counters of the application-style read loops.
 type c30Peer struct {
 	pc     *PeerConnection
+	prof   *c30Profile
 	tracks []*TrackLocalStaticRTP
 	seq    uint16
 	onTrk  atomic.Int64
@@ -323,7 +342,7 @@ type c30Peer struct {
 }
 
 func (c *c30Child) newPeer(o c30PCOpt) *c30Peer {
-	p := &c30Peer{pc: c30NewPC(o)}
+	p := &c30Peer{pc: c30NewPC(o), prof: o.Prof}
 	p.pc.OnTrack(func(t *TrackRemote, rcv *RTPReceiver) {
 		p.onTrk.Add(1)
 		go c.guard("app:TrackRemote.ReadRTP", func() {
@@ -380,7 +399,7 @@ func (c *c30Child) readSenderRTCP(p *c30Peer, s *RTPSender) {
 }
 
 func (c *c30Child) addTrack(p *c30Peer, kind RTPCodecType) {
-	t := c30Track(kind, "")
+	t := c30Track(kind, "", p.prof)
 	s, err := p.pc.AddTrack(t)
 	if err != nil {
 		return
@@ -390,7 +409,7 @@ func (c *c30Child) addTrack(p *c30Peer, kind RTPCodecType) {
 }
 
 func (c *c30Child) addSimulcast(p *c30Peer) {
-	q, h, f := c30Track(RTPCodecTypeVideo, "q"), c30Track(RTPCodecTypeVideo, "h"), c30Track(RTPCodecTypeVideo, "f")
+	q, h, f := c30Track(RTPCodecTypeVideo, "q", p.prof), c30Track(RTPCodecTypeVideo, "h", p.prof), c30Track(RTPCodecTypeVideo, "f", p.prof)
 	tr, err := p.pc.AddTransceiverFromTrack(q, RTPTransceiverInit{Direction: RTPTransceiverDirectionSendonly})
 	if err != nil {
 		return
